@@ -375,7 +375,7 @@ func (c *Ctx) ownRun() map[string]*simpleVerdict {
 			"Integer 1":                     mkInt(1), "Integer 2": mkInt(2), "Long 1": h.variant("Long", int64(1)), "String a": h.variant("String", lit("a")), "String ''": h.variant("String", lit("")),
 			"Null": h.variant("Null", nil), "Boolean true": h.variant("Boolean", true), "Double 1.5": h.variant("Double", float64(1.5)), "Double NaN": nan,
 			"Array [1 2]": arr(1, 2), "Array [1 3]": arr(1, 3), "Array []": arr(), "Array [[1 2] 3]": nested, "Object map": mapObj, "Object slice": sliceObj,
-			"TimeSpan 5": h.variant("TimeSpan", int64(5)),
+			"TimeSpan 5":  h.variant("TimeSpan", int64(5)),
 			"Array [nil]": arrN(-1), "Array [nil nil]": arrN(-1, -1), "Array [1 nil]": arrN(1, -1), "Array [nil 2]": arrN(-1, 2), "Array [nil 3]": arrN(-1, 3),
 			"Array [1 2 nil]": arrN(1, 2, -1), "Array [nil 1 2]": arrN(-1, 1, 2), "Array [1 nil 2]": arrN(1, -1, 2), "Array [1]": arr(1), "Array [1 2 3]": arr(1, 2, 3),
 			"Array [[1 nil] 3]": list(arrN(1, -1), mkInt(3)), "Array [[nil 2] 3]": list(arrN(-1, 2), mkInt(3)),
